@@ -28,6 +28,8 @@ def jobs(tier):
         mk('C04', 'deep_ff_chain', S.deep_ff_chain(), witnesses=W),
         mk('C04', 'child/await/raising_chained', S.child('await', k=0, raising='child_chained', actor=False), witnesses=W),
         mk('C04', 'many_buses_backlog', S.many_buses_backlog(), witnesses=W),
+        mk('C04', 'cross_ff_grandchild/AB', S.cross_ff_grandchild(('A', 'B')), witnesses=W),
+        mk('C04', 'cross_ff_grandchild/BA', S.cross_ff_grandchild(('B', 'A')), witnesses=W),
     ]
     if tier == 'thorough':
         out += [
